@@ -128,7 +128,8 @@ Definition chunk_range (cr : bytes) (cl : Z) : chunk_range_result :=
   | None => CRBadRange
   | Some (start, end0, rangeOK) =>
       let end1 := if rangeOK && (cl >=? 0) && (start =? 0) && (end0 =? 0) && (cl =? 1) then 1 else end0 in
-      if rangeOK && (cl >=? 0) && negb (end1 - start =? cl) then CRBadLength (end1 - start)
+      let len := wrap64 (end1 - start) in                 (* rangeLength := end - start, in int64 *)
+      if rangeOK && (cl >=? 0) && negb (len =? cl) then CRBadLength len
       else
         let end2 := if negb rangeOK && (cl >=? 0) then cl else end1 in
         CROk start end2
